@@ -562,6 +562,8 @@ pub struct BindRequest<'data> {
     payload: BindPayload<'data>,
     /// Place to respond to the bind request
     tx_msg_tx: mpsc::UnboundedSender<Message>,
+    /// Whether a reply has been sent
+    replied: core::sync::atomic::AtomicBool,
 }
 
 impl BindRequest<'_> {
@@ -595,6 +597,8 @@ impl BindRequest<'_> {
     /// - Returns [`Error::Closed`] if the `Multiplexor` is already closed.
     #[tracing::instrument(skip(self), level = "debug")]
     pub fn reply(&self, accepted: bool) -> Result<()> {
+        self.replied
+            .store(true, core::sync::atomic::Ordering::Relaxed);
         if accepted {
             self.tx_msg_tx.send(Frame::new_finish(self.flow_id).into())
         } else {
@@ -617,8 +621,12 @@ impl BindRequest<'_> {
 }
 
 impl Drop for BindRequest<'_> {
-    /// Dropping a `BindRequest` will reject the request
+    /// Dropping a `BindRequest` that has not been replied to will reject the request
     fn drop(&mut self) {
-        self.reply(false).ok();
+        // The request is settled by the first reply. The peer frees the flow ID at
+        // that point, so another `Reset` could hit whatever it uses that ID for next.
+        if !self.replied.load(core::sync::atomic::Ordering::Relaxed) {
+            self.reply(false).ok();
+        }
     }
 }
